@@ -699,6 +699,32 @@ def _function_plan(base, cur):
     return sorted(pairs)
 
 
+def _mark_fields(t):
+    """`.name` (field access / method call) -> `.FIELD__name`, so that a local and a field of the same name are different tokens"""
+    return re.sub(r'\.\s*([A-Za-z_]\w*)', r'.FIELD__\1', t)
+
+
+def _sub_local(mp, text):
+    return re.sub(r'(?<![.\w])(%s)\b' % '|'.join(map(re.escape, mp)), lambda m: mp[m.group(1)], text)
+
+
+def field_renames(pairs_of_texts, cur_texts, base_texts):
+    """consistent renames of fields over a whole unit, read off the lines that changed one-for-one: {old: new}; accepted only if
+    `.old` occurs nowhere in the current text of the unit and `.new` nowhere in its base text"""
+    ren, bad = {}, set()
+    for tb_line, tc_line in pairs_of_texts:
+        tb, tc = _TOK.findall(_mark_fields(tb_line)), _TOK.findall(_mark_fields(tc_line))
+        if len(tb) != len(tc):
+            continue
+        for x, y in zip(tb, tc):
+            if x != y and x.startswith('FIELD__') and y.startswith('FIELD__'):
+                if ren.setdefault(x[7:], y[7:]) != y[7:]:
+                    bad.add(x[7:])
+    cur_f = set(re.findall(r'\.\s*([A-Za-z_]\w*)', '\n'.join(cur_texts)))
+    base_f = set(re.findall(r'\.\s*([A-Za-z_]\w*)', '\n'.join(base_texts)))
+    return {x: y for x, y in ren.items() if x not in bad and x not in cur_f and y not in base_f}
+
+
 def local_renames(base, cur, bmap):
     """consistent renames of local identifiers inside one function (base text -> current text), read off the lines that changed
     one-for-one: {(lo, hi) base span: {old: new}}.  A rename is accepted only if `old` no longer occurs in the current text of
@@ -711,7 +737,7 @@ def local_renames(base, cur, bmap):
             continue
         ren, bad = {}, set()
         for b, c in pairs:
-            tb, tc = _TOK.findall(base[b][0]), _TOK.findall(cur[c][0])
+            tb, tc = _TOK.findall(_mark_fields(base[b][0])), _TOK.findall(_mark_fields(cur[c][0]))
             if len(tb) != len(tc):
                 continue
             for x, y in zip(tb, tc):
@@ -724,8 +750,8 @@ def local_renames(base, cur, bmap):
         cur_idx = [bmap[b][1] for b in range(lo, hi + 1) if bmap.get(b, ('', 0))[0] in ('eq', 'mod')]
         if not cur_idx:
             continue
-        cur_toks = set(t for c in range(min(cur_idx), max(cur_idx) + 1) for t in _TOK.findall(cur[c][0]))
-        base_toks = set(t for b in range(lo, hi + 1) for t in _TOK.findall(base[b][0]))
+        cur_toks = set(t for c in range(min(cur_idx), max(cur_idx) + 1) for t in _TOK.findall(_mark_fields(cur[c][0])))
+        base_toks = set(t for b in range(lo, hi + 1) for t in _TOK.findall(_mark_fields(base[b][0])))
         ok = {x: y for x, y in ren.items() if x not in bad and x not in cur_toks and y not in base_toks}
         if ok:
             res[(lo, hi)] = ok
@@ -845,7 +871,7 @@ def _line_map(base, cur):
     return bmap, anchor, changed, moved
 
 
-def merge(olines, base, cur, relpath, overlay_name):
+def merge(olines, base, cur, relpath, overlay_name, fren=None):
     """emit the current code with the overlay's annotation lines.  Returns (out_lines, origin, info).
     origin[i] = ('C', relpath, repo_line) | ('A', overlay_name, overlay_line).
     The current lines are emitted in their order; every overlay code line carries the annotation lines that follow it (and the
@@ -856,8 +882,8 @@ def merge(olines, base, cur, relpath, overlay_name):
     # T20: a consistent rename of a local identifier inside a function is carried over to that function's annotation lines
     renames = local_renames(base, cur, bmap)
     renamed = 0
+    span_of = {}
     if renames:
-        span_of = {}
         for (lo, hi), mp in renames.items():
             for b in range(lo, hi + 1):
                 span_of[b] = mp
@@ -869,10 +895,10 @@ def merge(olines, base, cur, relpath, overlay_name):
                     for attr in ('extra', 'after'):
                         v = getattr(ol, attr)
                         if v:
-                            setattr(ol, attr, [re.sub(r'\b(%s)\b' % '|'.join(map(re.escape, last_map)), lambda m: last_map[m.group(1)], x) for x in v])
+                            setattr(ol, attr, [_sub_local(last_map, x) for x in v])
                 continue
             if last_map:
-                t2 = re.sub(r'\b(%s)\b' % '|'.join(map(re.escape, last_map)), lambda m: last_map[m.group(1)], ol.text)
+                t2 = _sub_local(last_map, ol.text)
                 if t2 != ol.text:
                     ol.text = t2
                     renamed += 1
@@ -921,7 +947,22 @@ def merge(olines, base, cur, relpath, overlay_name):
         if c in image:
             ol, tag = image[c]
             emit_ann(lead[id(ol)])
-            for k, t in enumerate(derive(ol, cur[c][0], tag == 'eq', lost)):
+            same = tag == 'eq'
+            if not same and ol.kind in ('was', 'drop') and ol.base is not None:
+                # the line differs from the base only by a rename that is carried over (T20 / T20b): the rewrite still applies,
+                # with the same rename
+                lm = span_of.get(ol.bidx) if renames else None
+
+                def rn(t):
+                    if fren:
+                        t = re.sub(r'(?<=\.)(%s)\b' % '|'.join(map(re.escape, fren)), lambda m: fren[m.group(1)], t)
+                    if lm:
+                        t = _sub_local(lm, t)
+                    return t
+                if (fren or lm) and _line_key(rn(ol.base)) == _line_key(cur[c][0]):
+                    same = True
+                    ol.text = rn(ol.text)
+            for k, t in enumerate(derive(ol, cur[c][0], same, lost)):
                 out.append(t)
                 if ol.kind == 'arm' and (0 < k <= len(ol.extra or []) or len(ol.extra or []) + 1 < k <= len(ol.extra or []) + 1 + len(ol.after or [])):
                     origin.append(('A', overlay_name, ol.ono + k))
@@ -977,13 +1018,13 @@ def build_unit(overlay_path, base_root, repo_root, out_path, subst_tables=None, 
     out, origin = [], []
     files = []
     problems = []
-    i = 0
     n = len(raw)
+    # pass 1: the regions (one per /repo file) with their base and current text
+    regions = {}
+    i = 0
     while i < n:
         mo = _FILE.match(raw[i])
         if not mo:
-            out.append(raw[i])
-            origin.append(('A',) + src[i])
             i += 1
             continue
         rel, select = mo.group(1), mo.group(2)
@@ -1005,7 +1046,43 @@ def build_unit(overlay_path, base_root, repo_root, out_path, subst_tables=None, 
         if missing:
             for k in missing[:5]:
                 problems.append({'kind': 'overlay-out-of-sync', 'file': rel, 'base_line': base[k][1], 'text': base[k][0]})
-        o2, or2, info = merge(region, base, cur, rel, name)
+        regions[i] = (rel, select, j, region, base, cur)
+        i = j + 1
+    # T20b: a field renamed consistently over the whole unit is renamed in the overlay's own annotation lines too
+    mod_pairs = []
+    for rel, select, j, region, base, cur in regions.values():
+        bm = _line_map(base, cur)[0]
+        mod_pairs += [(base[b][0], cur[m[1]][0]) for b, m in bm.items() if m[0] == 'mod']
+    fren = field_renames(mod_pairs, [t for r in regions.values() for t, _ in r[5]], [t for r in regions.values() for t, _ in r[4]]) if mod_pairs else {}
+    fields_renamed = 0
+    if fren:
+        rx = re.compile(r'(?<=\.)(%s)\b' % '|'.join(map(re.escape, fren)))
+
+        def fsub(t):
+            return rx.sub(lambda m: fren[m.group(1)], t)
+        for rel, select, j, region, base, cur in regions.values():
+            for ol in region:
+                if ol.bidx is None and ol.kind == 'plain':
+                    t2 = fsub(ol.text)
+                    if t2 != ol.text:
+                        ol.text = t2
+                        fields_renamed += 1
+                if ol.kind == 'arm':
+                    ol.extra = [fsub(x) for x in (ol.extra or [])]
+                    ol.after = [fsub(x) for x in (ol.after or [])]
+        in_region = set(q for i0, r in regions.items() for q in range(i0, r[2] + 1))
+        for q in range(n):
+            if q not in in_region and src[q][0] == name:
+                raw[q] = fsub(raw[q])
+    i = 0
+    while i < n:
+        if i not in regions:
+            out.append(raw[i])
+            origin.append(('A',) + src[i])
+            i += 1
+            continue
+        rel, select, j, region, base, cur = regions[i]
+        o2, or2, info = merge(region, base, cur, rel, name, fren)
         out.append('// ---- begin %s (current /repo text + overlay annotations)' % rel)
         origin.append(('A', name, i + 1))
         out.extend(o2)
@@ -1028,7 +1105,8 @@ def build_unit(overlay_path, base_root, repo_root, out_path, subst_tables=None, 
         f.write('\n'.join(out))
         f.write('\n')
     return {'overlay': name, 'out': out_path, 'files': files, 'transform_counts': dict(counts),
-            'problems': problems, 'origin': origin, 'lines': out, 'spinoff_attrs': n_spin, 'new_readonly_fns_dropped': dropped_new}
+            'problems': problems, 'origin': origin, 'lines': out, 'spinoff_attrs': n_spin, 'new_readonly_fns_dropped': dropped_new,
+            'fields_renamed': fren, 'annotation_lines_field_renamed': fields_renamed}
 
 
 def drop_new_readonly_fns(out, origin, base_root):
